@@ -1,6 +1,13 @@
 import ArrProofs.Lemmas.C09
-import ArrProofs.Props.C02
+import ArrProofs.Lemmas.C09Total
 import ArrProofs.Props.C07
+import ArrProofs.Props.C10
+import ArrProofs.Props.C11
+import ArrProofs.Props.C13
+import ArrProofs.Props.C19
+import ArrProofs.Props.C14
+import ArrProofs.Props.C15
+import ArrModel.IndexExt
 import ArrModel.C10
 import ArrModel.C19
 /-!
@@ -16,6 +23,12 @@ Property theorems only (helpers: `ArrProofs/Lemmas/C09.lean`).  Three groups:
 (b) `Result` receivers — `liftR op (.err e) = .err e`; every method body of every `impl … for Result<Array<_>, ArrayError>`
     found in the source is the delegation (`decide` over the regenerated table).
 (c) the `…_total` / `…_rejects` family over the shared operation models (`Res.panic` models every Rust panic).
+(d) `…_total` for the families whose shared models used to contain reachable panic arms (apply_along_axis and everything
+    built on it, split, flip / roll / rot90, squeeze, delete / insert / repeat / append / concatenate / stack, broadcast):
+    corollaries of the totality theorems of the owning properties C07, C08 (`Lemmas/C08Empty.lean`), C10, C11, C13, C19
+    and of `Lemmas/C09Total.lean` (C02 / C03 / C12 cannot be imported next to the lemma files of C08: same helper names).
+(e) refusals of the operations whose models belong to other properties and are now run by the C09 driver: slice, indices_at
+    (`ArrModel/IndexExt.lean`), the linalg products (C14), det / qr / solve / norm (C15).
 -/
 namespace ArrModel.C09
 open ArrModel ArrModel.Gen.Tables
@@ -172,22 +185,19 @@ variable {α β : Type}
 
 /-! ### coordinates and positions (re-exported from C02 where they exist) -/
 
-theorem indexAt_total (a : Arr α) (c : List Nat) : a.indexAt c ≠ .panic := C02.indexAt_never_panics a c
+theorem indexAt_total (a : Arr α) (c : List Nat) : a.indexAt c ≠ .panic := indexAt_ne_panic a c
 
 /-- wrong length or any coordinate out of range -/
 theorem indexAt_rejects (a : Arr α) (c : List Nat) (h : inRange a.shape c = false) : ∃ e, a.indexAt c = .err e :=
-  ⟨_, (C02.indexAt_err_iff a c).2 h⟩
+  ⟨_, (indexAt_err_iff' a c).2 h⟩
 
 theorem at_rejects (a : Arr α) (c : List Nat) (h : inRange a.shape c = false) : ∃ e, a.atc c = .err e :=
-  ⟨_, C02.atc_err a c h⟩
+  ⟨_, atc_err' a c h⟩
 
-theorem at_total (a : Arr α) (hwf : a.WF) (c : List Nat) : a.atc c ≠ .panic := by
-  cases h : inRange a.shape c with
-  | true => obtain ⟨x, hx, _⟩ := C02.atc_ok a hwf c h; rw [hx]; simp
-  | false => rw [C02.atc_err a c h]; simp
+theorem at_total (a : Arr α) (hwf : a.WF) (c : List Nat) : a.atc c ≠ .panic := atc_ne_panic a hwf c
 
 theorem indexToCoord_rejects (a : Arr α) (i : Nat) (h : a.len ≤ i) : ∃ e, a.indexToCoord i = .err e :=
-  ⟨_, C02.indexToCoord_err a i h⟩
+  ⟨_, indexToCoord_err' a i h⟩
 
 theorem indexToCoord_total (a : Arr α) (i : Nat) : a.indexToCoord i ≠ .panic := by
   unfold Arr.indexToCoord; split <;> simp
@@ -373,6 +383,299 @@ theorem stack_rejects (a0 : Arr α) (rest : List (Arr α)) (zero : α) (axis : O
 
 end ops
 
+
+/-! ## (d) totality of the remaining families: every well-formed array, every argument value — `Ok` or `Err`, never a panic -/
+
+section total
+variable {α β : Type}
+
+/-! ### `apply_along_axis` and the operations built on it -/
+
+/-- `apply_along_axis`: every well-formed array (zero-length axes included), every axis (inside the rank or not), every
+lane closure that does not panic itself (the closure is the caller's code; no assumption on what it returns) -/
+theorem applyAlongAxis_total (a : Arr α) (zero : α) (zb : β) (axis : Nat) (f : Arr α → Res (Arr β))
+    (hwf : a.WF) (hf : ∀ x, f x ≠ .panic) : a.applyAlongAxis zero zb axis f ≠ .panic :=
+  applyAlongAxis_never_panics a zero zb axis f hwf hf
+
+/-- the reduce / count / scan wrappers (sum, prod, max, min, cumsum, count_nonzero, …): any axis option, any keepdims -/
+theorem axis_wrappers_total (a : Arr α) (zero : α) (zb : β) (axis : Option Int) (kd : Option Bool)
+    (f1 : Arr α → Res (Arr β)) (g1 : Arr α → Option Bool → Res (Arr β)) (hwf : a.WF)
+    (hf : ∀ x, f1 x ≠ .panic) (hg : ∀ x k, g1 x k ≠ .panic) :
+    a.reduceAxis zero zb axis f1 ≠ .panic ∧ a.countAxis zero zb axis kd g1 ≠ .panic ∧ a.scanAxis zero zb axis f1 ≠ .panic :=
+  axis_wrappers_ne_panic a zero zb axis kd f1 g1 hwf hf hg
+
+/-- sort / argsort / unique / argmax / argmin with their own lane functions: any axis option, any kind spelling (enum,
+known or unknown text), any element order that is a total order -/
+theorem sort_family_total (c : Sort.Cmp α) (h : c.Lawful) (zero : α) (a : Arr α) (axis : Option Int) (ka : Sort.KindArg)
+    (isMax : Bool) (kd : Option Bool) (hwf : a.WF) :
+    Sort.sort c zero a axis ka ≠ .panic ∧ Sort.argsort c zero a axis ka ≠ .panic ∧ Sort.unique c zero a axis ≠ .panic ∧
+    Sort.argExtreme c zero isMax a axis kd ≠ .panic :=
+  ⟨C10.sort_op_never_panics h zero a axis ka hwf, C10.argsort_op_never_panics h zero a axis ka hwf,
+   C10.unique_op_never_panics zero a axis hwf, C10.argExtreme_op_never_panics h zero isMax a axis kd hwf⟩
+
+/-- an unknown kind name is refused by sort / argsort before anything else is looked at (any array, any axis) -/
+theorem sort_kind_rejects (c : Sort.Cmp α) (zero : α) (a : Arr α) (axis : Option Int) (s : List Char) (e : Err)
+    (h : Sort.resolveKind (.str s) = .err e) :
+    Sort.sort c zero a axis (.str s) = .err e ∧ Sort.argsort c zero a axis (.str s) = .err e := by
+  unfold Sort.sort Sort.argsort; rw [h]; exact ⟨rfl, rfl⟩
+
+/-- pack_bits / unpack_bits (through the model of the crate's own `apply_along_axis`): any axis, count, order spelling -/
+theorem bits_total (a : Arr Nat) (hwf : a.WF) (axis count : Option Int) (ord : Option C19.Spelling) :
+    C19.packBits C19.alongPipe a axis ord ≠ .panic ∧ C19.unpackBits C19.alongPipe a axis count ord ≠ .panic :=
+  ⟨C19.pack_never_panics a hwf axis ord, C19.unpack_never_panics a hwf axis count ord⟩
+
+/-- an unknown bit-order name, or an axis outside the rank, is refused by pack_bits / unpack_bits on EVERY array —
+also on an empty one (checked before the empty-array shortcut) -/
+theorem bits_rejects (along : C19.Along) (a : Arr Nat) (axis count : Option Int) (ord : Option C19.Spelling)
+    (h : (∃ e, C19.optOrder ord = .err e) ∨ (∃ ax, axis = some ax ∧ C19.normalizeAxis a.ndim ax ≥ a.ndim)) :
+    (∃ e, C19.packBits along a axis ord = .err e) ∧ (∃ e, C19.unpackBits along a axis count ord = .err e) := by
+  rcases h with ⟨e, he⟩ | ⟨ax, rfl, hax⟩
+  · unfold C19.packBits C19.unpackBits; rw [he]; exact ⟨⟨e, rfl⟩, ⟨e, rfl⟩⟩
+  · unfold C19.packBits C19.unpackBits
+    cases ho : C19.optOrder ord with
+    | err e => exact ⟨⟨e, rfl⟩, ⟨e, rfl⟩⟩
+    | panic => exact absurd ho (by cases ord with | none => simp [C19.optOrder] | some s => exact C19.toBitOrder_never_panics s)
+    | ok o => simp only [C19.axisCheck, if_pos hax]; exact ⟨⟨_, rfl⟩, ⟨_, rfl⟩⟩
+
+/-! ### splitting -/
+
+/-- array_split / split / split_axis / hsplit / vsplit / dsplit: every part count (zero included), every axis -/
+theorem split_total (a : Arr α) (zero : α) (parts k : Nat) (hwf : a.WF) :
+    a.arraySplit zero parts (some k) ≠ .panic ∧ a.split zero parts (some k) ≠ .panic ∧ a.splitAxis zero k ≠ .panic ∧
+    a.hsplit zero parts ≠ .panic ∧ a.vsplit zero parts ≠ .panic ∧ a.dsplit zero parts ≠ .panic := by
+  obtain ⟨h1, h2, h3, h4, h5, h6, _⟩ := C11.split_total a zero parts k hwf
+  exact ⟨h1, h2, h3, h4, h5, h6⟩
+
+/-- `axis = None` on a receiver of rank ≥ 1.  FULL statement (without `hnd`) is FALSE for the code: on a rank-0 array
+(`Array::new(vec![x], vec![])`) `array_split(1, None)` and `split(1, None)` reach `self.shape[0]` and panic — model
+(`example` below) and /repo alike (case line `C09.t.ArraySplit.array_split - 1 none`, fixes/C09-split-rank0.md); rank 0 is
+outside the ranks 1..4 the property statement quantifies over -/
+theorem split_none_total_partial (a : Arr α) (zero : α) (parts : Nat) (hwf : a.WF) (hnd : 1 ≤ a.ndim) :
+    a.arraySplit zero parts none ≠ .panic ∧ a.split zero parts none ≠ .panic :=
+  (C11.split_total a zero parts 0 hwf).2.2.2.2.2.2 hnd
+
+/-! ### reordering (proved in `Lemmas/C09Total.lean`, not even well-formedness is needed) -/
+
+theorem flip_total (a : Arr α) (axes : Option (List Int)) : a.flip axes ≠ .panic := flip_ne_panic a axes
+
+/-- shift and axis lists of any lengths (equal or not, empty or not), axes inside the rank or not, repeated or not -/
+theorem roll_total (a : Arr α) (shift : List Int) (axes : Option (List Int)) : a.roll shift axes ≠ .panic :=
+  roll_ne_panic a shift axes
+
+theorem rot90_total (a : Arr α) (zero : α) (k : Nat) (axes : List Int) : a.rot90 zero k axes ≠ .panic :=
+  rot90_ne_panic a zero k axes
+
+theorem squeeze_total (a : Arr α) (axes : Option (List Int)) (hwf : a.WF) : a.squeeze axes ≠ .panic :=
+  C07.squeeze_total a axes hwf
+
+/-! ### broadcasting -/
+
+theorem broadcast_family_total (a : Arr α) (b : Arr β) (t : List Nat) (ha : a.WF) (hb : b.WF) :
+    a.broadcastTo t ≠ .panic ∧ a.broadcast b ≠ .panic ∧ a.zip b ≠ .panic :=
+  ⟨broadcastTo_ne_panic a ha t, broadcast_ne_panic a b ha hb, zip_ne_panic a b hb⟩
+
+/-! ### delete / insert / repeat -/
+
+theorem delete_total (a : Arr α) (zero : α) (idxs : List Nat) (axis : Option Nat) (hwf : a.WF) :
+    a.delete zero idxs axis ≠ .panic := C13.delete_total a zero idxs axis hwf
+
+theorem insertFlat_total (a : Arr α) (idxs : List Nat) (values : Arr α) : a.insertFlat idxs values ≠ .panic :=
+  C13.insertFlat_no_panic a idxs values
+
+theorem repeat_total (a : Arr α) (zero : α) (reps : List Nat) (axis : Nat) (hwf : a.WF) :
+    a.repeatAxis zero reps axis ≠ .panic ∧ a.repeatFlat reps ≠ .panic := by
+  refine ⟨?_, repeatFlat_no_panic a reps⟩
+  rcases C13.repeatAxis_total a zero reps axis hwf with ⟨_, h⟩ | ⟨_, _, h⟩ | ⟨_, _, _, r, h, _⟩ <;> rw [h] <;>
+    exact fun h => nomatch h
+
+/-- `repeat(counts, None)`: a count list that fits neither the last axis nor a single count is refused (last axis ≠ 1) -/
+theorem repeatFlat_rejects (a : Arr α) (reps : List Nat) (P : List Nat) (L : Nat) (hs : a.shape = P ++ [L])
+    (h : L = 0 ∨ reps.length = 0 ∨ (reps.length ≠ L ∧ reps.length ≠ 1 ∧ L ≠ 1)) :
+    ∃ e, a.repeatFlat reps = .err e := ⟨_, (C13.repeatFlat_total a reps).1 P L hs h⟩
+
+/-! ### joining -/
+
+/-- `append(values, axis)`: every pair of well-formed arrays (zero-size included), every axis option -/
+theorem append_total (a v : Arr α) (zero : α) (axis : Option Nat) (ha : a.WF) (hv : v.WF) :
+    a.append v zero axis ≠ .panic := by
+  cases axis with
+  | none => exact fun h => nomatch h
+  | some k =>
+    by_cases hk : k < a.ndim
+    · by_cases hm : a.ndim ≠ v.ndim ∨ a.shape.eraseIdx k ≠ v.shape.eraseIdx k
+      · obtain ⟨e, he⟩ := (C11.mismatch_refused zero k a []).1 v hm
+        rw [he]; exact fun h => nomatch h
+      · have h1 : a.ndim = v.ndim := Classical.byContradiction (fun h => hm (.inl h))
+        have h2 : a.shape.eraseIdx k = v.shape.eraseIdx k := Classical.byContradiction (fun h => hm (.inr h))
+        obtain ⟨r, hr, _⟩ := C11.appendAxis_at a v zero k ha hv hk (by omega) h2
+        rw [hr]; exact fun h => nomatch h
+    · obtain ⟨e, he⟩ := append_rejects a v zero k (.inl (by omega))
+      rw [he]; exact fun h => nomatch h
+
+/-- `concatenate(arrays, axis)`: every list of well-formed arrays (the `unwrap` inside the fold is never reached with an
+error: the shape validation in front of it refuses exactly the lists on which an `append` would fail) -/
+theorem concatenate_total (arrs : List (Arr α)) (zero : α) (axis : Option Nat) (hwf : ∀ b ∈ arrs, b.WF) :
+    Arr.concatenate arrs zero axis ≠ .panic := by
+  cases arrs with
+  | nil => exact fun h => nomatch h
+  | cons a0 rest =>
+    cases axis with
+    | none => obtain ⟨r, hr, _⟩ := (C11.concatenate_none zero a0 rest).1; rw [hr]; exact fun h => nomatch h
+    | some k =>
+      by_cases hbad : ∃ b ∈ a0 :: rest, k ≥ b.ndim ∨ b.shape.eraseIdx k ≠ a0.shape.eraseIdx k
+      · obtain ⟨e, he⟩ := (C11.mismatch_refused zero k a0 rest).2 hbad
+        rw [he]; exact fun h => nomatch h
+      · have hj : C11.Joinable k a0 rest := by
+          intro b hb
+          refine ⟨hwf b hb, ?_, ?_⟩
+          · exact Classical.byContradiction (fun h => hbad ⟨b, hb, .inl (by omega)⟩)
+          · exact Classical.byContradiction (fun h => hbad ⟨b, hb, .inr h⟩)
+        obtain ⟨r, hr, _⟩ := C11.concatenate_at zero k a0 rest hj
+        rw [hr]; exact fun h => nomatch h
+
+/-- `stack(arrays, Some(axis))`: every list of well-formed arrays, every axis -/
+theorem stack_total (arrs : List (Arr α)) (zero : α) (k : Nat) (hwf : ∀ b ∈ arrs, b.WF) :
+    Arr.stack arrs zero (some k) ≠ .panic := by
+  cases arrs with
+  | nil => unfold Arr.stack; simp
+  | cons a0 rest =>
+    by_cases hax : ∃ b ∈ a0 :: rest, b.ndim ≤ k
+    · rw [(C11.stack_axis_rank_refused zero a0 rest).2 k hax]; exact fun h => nomatch h
+    · by_cases hsh : ∃ b ∈ a0 :: rest, b.shape ≠ a0.shape
+      · obtain ⟨e, he⟩ := C11.stack_unequal_refused zero (some k) a0 rest hsh
+        rw [he]; exact fun h => nomatch h
+      · have hk : k < a0.ndim := Classical.byContradiction (fun h => hax ⟨a0, List.mem_cons_self, by omega⟩)
+        obtain ⟨r, hr, _⟩ := C11.stack_at zero k a0 rest hk (fun b hb =>
+          ⟨hwf b hb, Classical.byContradiction (fun h => hsh ⟨b, hb, h⟩)⟩)
+        rw [hr]; exact fun h => nomatch h
+
+end total
+
+/-! ## (e) refusals of the operations modelled by other properties (run by the driver since round 5) -/
+
+section foreign
+variable {α : Type}
+
+/-- `slice(start..stop)` on every array of every rank: a reversed range or an end beyond the element count is refused -/
+theorem slice_rejects (a : Arr α) (start stop : Nat) (h : stop < start ∨ a.len < stop) : ∃ e, a.slice start stop = .err e := by
+  refine ⟨.OutOfBounds, ?_⟩
+  unfold Arr.slice
+  rw [if_pos]
+  unfold Arr.len at h
+  rcases h with h | h
+  · have : decide (start ≤ stop) = false := by simpa using h
+    simp [this]
+  · have : decide (stop ≤ a.elems.length) = false := by simpa using h
+    simp [this]
+
+/-- `indices_at`: on a vector an index at or beyond the length, on rank ≥ 2 an index at or beyond the first axis length,
+on rank 0 anything — refused, on every array -/
+theorem indicesAt_rejects (a : Arr α) (idx : List Nat)
+    (h : (a.ndim = 1 ∧ ∃ i ∈ idx, i ≥ a.len) ∨ a.ndim = 0 ∨ (2 ≤ a.ndim ∧ ∃ i ∈ idx, i ≥ a.shape.headD 0)) :
+    ∃ e, a.indicesAt idx = .err e := by
+  unfold Arr.indicesAt
+  rcases h with ⟨h1, i, hi, hge⟩ | h0 | ⟨h2, i, hi, hge⟩
+  · rw [if_pos h1, if_pos (by simp only [List.any_eq_true, decide_eq_true_eq]; exact ⟨i, hi, hge⟩)]
+    exact ⟨_, rfl⟩
+  · rw [if_neg (by omega), if_pos (by omega)]; exact ⟨_, rfl⟩
+  · rw [if_neg (by omega), if_neg (by omega)]
+    cases hs : a.shape with
+    | nil => simp [Arr.ndim, hs] at h2
+    | cons d0 t =>
+      rw [hs] at hge
+      have : (idx.any fun i => decide (i ≥ d0)) = true := by
+        simp only [List.any_eq_true, decide_eq_true_eq]; exact ⟨i, hi, by simpa using hge⟩
+      simp only [Res.idx, List.getElem?_cons_zero, Res.bind_ok, this, if_true]
+      exact ⟨_, rfl⟩
+
+/-- linalg products: operands that do not conform are refused (vdot: different element counts; inner: different last
+axes; matmul and dot of two matrices: inner dimensions differ) -/
+theorem products_reject (a b : C14.A) :
+    (a.len ≠ b.len → ∃ e, C14.vdot a b = .err e) ∧
+    (∀ sa sb k k', a.shape = sa ++ [k] → b.shape = sb ++ [k'] → k ≠ k' → ∃ e, C14.inner a b = .err e) ∧
+    (∀ n m m' p, a.shape = [n, m] → b.shape = [m', p] → m ≠ m' → ∃ e, C14.matmul a b = .err e) ∧
+    (∀ n m m' p, a.shape = [n, m] → b.shape = [m', p] → a.len ≠ 1 → b.len ≠ 1 → m ≠ m' → ∃ e, C14.dotFull a b = .err e) :=
+  ⟨fun h => ⟨_, C14.vdot_refuses a b h⟩,
+   fun sa sb k k' h1 h2 h => ⟨_, C14.inner_refuses a b sa sb k k' h1 h2 h⟩,
+   fun n m m' p h1 h2 h => ⟨_, C14.matmul_refuses_22 a b n m m' p h1 h2 h⟩,
+   fun n m m' p h1 h2 h3 h4 h => ⟨_, C14.dotFull_extends a b _ (C14.dot_refuses_22 a b n m m' p h1 h2 h3 h4 h)⟩⟩
+
+/-- det / qr / solve: a matrix that is not square (or has an axis shorter than 2) is refused; solve also refuses a
+right-hand side whose first axis differs from the matrix order -/
+theorem square_rejects (a b : Arr Rat) (r c : Nat) (hs : a.shape = [r, c]) (h : r < 2 ∨ c < 2 ∨ r ≠ c) :
+    (∃ e, C15.detArr a = .err e) ∧ (∃ e, C15.qrArr a = .err e) ∧ (∃ e, C15.solveArr a b = .err e) := by
+  have hsq : ∃ e, C15.isSquare2 a.shape = .err e := by
+    rw [hs]; unfold C15.isSquare2; simp only []
+    by_cases h1 : r < 2
+    · rw [if_pos h1]; exact ⟨_, rfl⟩
+    · rw [if_neg h1]
+      by_cases h2 : c < 2
+      · rw [if_pos h2]; exact ⟨_, rfl⟩
+      · rw [if_neg h2, if_pos (by omega)]; exact ⟨_, rfl⟩
+  have hl : ∃ e, C15.isSquareLast a.shape = .err e := by
+    rw [hs]; unfold C15.isSquareLast
+    simp only [List.length_cons, List.length_nil, Nat.zero_add, Nat.reduceAdd, Nat.lt_irrefl, if_false, Nat.add_one_sub_one,
+      Nat.sub_self, List.getD_cons_succ, List.getD_cons_zero]
+    by_cases h2 : c < 2
+    · rw [if_pos h2]; exact ⟨_, rfl⟩
+    · rw [if_neg h2]
+      by_cases h1 : r < 2
+      · rw [if_pos h1]; exact ⟨_, rfl⟩
+      · rw [if_neg h1, if_pos (by omega)]; exact ⟨_, rfl⟩
+  obtain ⟨e1, he1⟩ := hsq
+  obtain ⟨e2, he2⟩ := hl
+  have hnd : a.ndim = 2 := by simp [Arr.ndim, hs]
+  refine ⟨⟨e1, ?_⟩, ⟨e2, ?_⟩, ⟨e1, ?_⟩⟩
+  · unfold C15.detArr; simp [hnd, he1]
+  · unfold C15.qrArr; simp [hnd, he2]
+  · unfold C15.solveArr; simp [hnd, he1]
+
+theorem solve_rhs_rejects (a b : Arr Rat) (n b0 : Nat) (t : List Nat) (hs : a.shape = [n, n]) (hn : 2 ≤ n)
+    (hb : b.shape = b0 :: t) (h : b0 ≠ n) : ∃ e, C15.solveArr a b = .err e := by
+  have hnd : a.ndim = 2 := by simp [Arr.ndim, hs]
+  have hsq : C15.isSquare2 a.shape = .ok () := by
+    rw [hs]; unfold C15.isSquare2; simp only []; rw [if_neg (by omega), if_neg (by omega), if_neg (by simp)]
+  refine ⟨.MustBeEqual, ?_⟩
+  rw [hs] at hsq
+  unfold C15.solveArr
+  simp [hnd, hsq, hb, hs, Res.idx, h]
+
+/-- norm: an axis list that is empty or has three or more entries, one axis outside the rank, two axes of which one is
+outside the rank (or both equal) — refused for every order and every array -/
+theorem norm_axes_reject (a : Arr Rat) (ord : Option C15.Ord) (keep : Bool) :
+    (∃ e, C15.normArr a ord (some []) keep = .err e) ∧
+    (∀ x y z rest, ∃ e, C15.normArr a ord (some (x :: y :: z :: rest)) keep = .err e) ∧
+    (∀ ax0 ax1, (C15.normAxis a.ndim ax0 < 0 ∨ C15.normAxis a.ndim ax0 ≥ a.ndim ∨ C15.normAxis a.ndim ax1 < 0 ∨
+        C15.normAxis a.ndim ax1 ≥ a.ndim) → ∃ e, C15.normArr a ord (some [ax0, ax1]) keep = .err e) := by
+  refine ⟨⟨.ParameterError, by simp [C15.normArr]⟩, fun x y z rest => ⟨.ParameterError, by simp [C15.normArr]⟩, ?_⟩
+  intro ax0 ax1 h
+  rcases C15.norm_two_axes_out_of_range a ord ax0 ax1 keep h with h | h <;> exact ⟨_, h⟩
+
+theorem reduce_axis_rejects (f : List Rat → Rat) (a : Arr Rat) (ax : Int)
+    (h : C15.normAxis a.ndim ax < 0 ∨ C15.normAxis a.ndim ax ≥ a.ndim) : C15.reduceAxis f a ax = .err .AxisOutOfBounds := by
+  unfold C15.reduceAxis; simp only []; rw [if_pos h]
+
+/-- norm along ONE axis outside the rank: refused for every order -/
+theorem norm_axis_rejects (a : Arr Rat) (ord : Option C15.Ord) (ax : Int) (keep : Bool)
+    (h : C15.normAxis a.ndim ax < 0 ∨ C15.normAxis a.ndim ax ≥ a.ndim) : ∃ e, C15.normArr a ord (some [ax]) keep = .err e := by
+  have hm : ∀ g : Rat → Rat, C15.normAxis (C15.mapArr g a).ndim ax < 0 ∨ C15.normAxis (C15.mapArr g a).ndim ax ≥ (C15.mapArr g a).ndim := fun g => h
+  unfold C15.normArr
+  simp only [Bool.false_eq_true, if_false, Option.getD_some]
+  cases ord.getD (.int 2) with
+  | inf => simp only [reduce_axis_rejects _ _ _ (hm _)]; exact ⟨_, rfl⟩
+  | negInf => simp only [reduce_axis_rejects _ _ _ (hm _)]; exact ⟨_, rfl⟩
+  | fro => exact ⟨_, rfl⟩
+  | nuc => exact ⟨_, rfl⟩
+  | int v =>
+    simp only [reduce_axis_rejects _ _ _ (hm _)]
+    split
+    · exact ⟨_, rfl⟩
+    · split
+      · exact ⟨_, rfl⟩
+      · split <;> exact ⟨_, rfl⟩
+
+end foreign
+
 /-! ## non-vacuity -/
 
 /-- a `[2,3,4]` array: axis 3, axis −4 and a huge axis are outside the rank, and are refused by every family -/
@@ -388,6 +691,17 @@ example : sample.arraySplit 0 0 none = .err .ParameterError ∧ sample.split 0 2
     sample.reshape [5, 5] = .err .ShapeMustMatchValuesLength ∧ sample.broadcastTo [2, 3, 5] = .err .BroadcastShapeMismatch := by decide
 -- the hypotheses of `unknown_option_rejected` are satisfiable, and not by everything
 example : (∀ r ∈ sortKind.rowsStr, r.1 ≠ lowerAscii "Quick sort".toList) ∧ ¬ (∀ r ∈ sortKind.rowsStr, r.1 ≠ lowerAscii "QuickSort".toList) := by decide
+-- (d): a lawful element order, a lane closure that never panics, a well-formed zero-size array, the rank-0 witness
+example : Sort.Cmp.int.Lawful := Sort.Cmp.int_lawful
+example : ∀ x : Arr Nat, (fun l => Res.ok l) x ≠ .panic := fun _ h => nomatch h
+example : (⟨[], [2, 0]⟩ : Arr Nat).WF ∧ 1 ≤ (⟨[], [2, 0]⟩ : Arr Nat).ndim := by decide
+example : (⟨[7], []⟩ : Arr Nat).WF ∧ (⟨[7], []⟩ : Arr Nat).arraySplit 0 1 none = .panic := by decide
+example : Sort.resolveKind (.str "quick sort".toList) = .err .ParameterError ∧ C19.optOrder (some (.text "bigg".toList)) = .err .ParameterError := by decide
+example : (⟨[1, 2, 3], [3]⟩ : Arr Nat).repeatFlat [1, 1] = .err .BroadcastShapeMismatch := by decide
+-- (e): the hypotheses are satisfiable
+example : (⟨[1, 2, 3], [3]⟩ : Arr Nat).slice 2 1 = .err .OutOfBounds ∧ (⟨[1, 2, 3], [3]⟩ : Arr Nat).indicesAt [0, 3] = .err .OutOfBounds := by decide
+example : C15.normAxis 2 2 ≥ (2 : Nat) ∧ C15.normAxis 2 (-3) < 0 := by decide
+example : C15.detArr ⟨[1, 2, 3, 4, 5, 6], [2, 3]⟩ = .err .MustBeEqual ∧ C14.matmul ⟨[1, 2, 3, 4, 5, 6], [2, 3]⟩ ⟨[1, 2, 3, 4, 5, 6], [2, 3]⟩ = .err .ParameterError := by decide
 example : resultImpls.length = 205 ∧ (traitMethods.filter (·.fallible)).length = 253 ∧ optionParsers.length = 5 := by decide +kernel
 
 end ArrModel.C09
